@@ -13,6 +13,10 @@
  *   CLOSE id | ABORT id                                                          -> err
  *   NDIMS id | DEFDIM id | DEFVAR id | PUTATT id | ENDDEF id | REDEF id | SYNC id | IPUT id |
  *   ATTACH id | DETACH id | INQPATH id                                             -> err [value]
+ *   SETUP id                dims x(2048) t(unlimited) s(8), vars fx[x] rc[t][x] sm[s] rs[t][s] (NC_INT)   -> err
+ *   IOP id IPUT|BPUT|IGET fx|rc|sm|rs   post a nonblocking request; the harness keeps the user buffer     -> err
+ *   CLOSE / ABORT / WAITALL append ` bufs=ok` / ` bufs=CHANGED(n)` when put buffers of that id were kept:
+ *                           are they bit-identical to what the caller handed over?
  *   PROBE id <kind>         the same call executed in a forked child, so that a crash is a result:
  *                           -> err [value]   or   SIG<n>
  *   FILL k n                open path k read-only n more times                     -> list of err:id
@@ -66,6 +70,63 @@ static char dir[900], path[NPATH][1024];
 static int counter;
 static MPI_Comm work_comm = MPI_COMM_WORLD;
 
+/* ---- nonblocking requests whose user buffers we keep, to see what close/abort/wait do to them */
+typedef struct TB { struct TB *next; int ncid, isput; size_t n; int *buf, *copy; } TB;
+static TB *tbs;
+static void track(int ncid, int isput, int *buf, int *copy, size_t n) {
+    TB *t = (TB *)malloc(sizeof(TB));
+    t->ncid = ncid; t->isput = isput; t->n = n; t->buf = buf; t->copy = copy;   /* copy: taken BEFORE the request was posted */
+    t->next = tbs; tbs = t;
+}
+/* release the buffers of ncid; returns -1 if there was no put buffer, else the number of put buffers
+   that are not bit-identical to what the caller had handed over */
+static int release(int ncid) {
+    TB **pp = &tbs, *t; int nput = 0, bad = 0;
+    while ((t = *pp) != NULL) {
+        if (t->ncid != ncid) { pp = &t->next; continue; }
+        if (t->isput) { nput++; if (memcmp(t->buf, t->copy, t->n * sizeof(int))) bad++; }
+        *pp = t->next; free(t->buf); free(t->copy); free(t);
+    }
+    return nput ? bad : -1;
+}
+static void bufs_suffix(int ncid, char *out, size_t outsz) {
+    int r = release(ncid); size_t l = strlen(out);
+    if (r == 0) snprintf(out + l, outsz - l, " bufs=ok");
+    else if (r > 0) snprintf(out + l, outsz - l, " bufs=CHANGED(%d)", r);
+}
+/* SETUP: dimensions x (2048: 8 KiB of int, above the in-place byte-swap threshold), t (unlimited), s (8) and
+   variables fx[x], rc[t][x], sm[s], rs[t][s], all NC_INT */
+static int setup(int id) {
+    int dx, dt, ds, v, d2[2], err;
+    if ((err = ncmpi_def_dim(id, "x", 2048, &dx)) != NC_NOERR) return err;
+    if ((err = ncmpi_def_dim(id, "t", NC_UNLIMITED, &dt)) != NC_NOERR) return err;
+    if ((err = ncmpi_def_dim(id, "s", 8, &ds)) != NC_NOERR) return err;
+    if ((err = ncmpi_def_var(id, "fx", NC_INT, 1, &dx, &v)) != NC_NOERR) return err;
+    d2[0] = dt; d2[1] = dx;
+    if ((err = ncmpi_def_var(id, "rc", NC_INT, 2, d2, &v)) != NC_NOERR) return err;
+    if ((err = ncmpi_def_var(id, "sm", NC_INT, 1, &ds, &v)) != NC_NOERR) return err;
+    d2[1] = ds;
+    return ncmpi_def_var(id, "rs", NC_INT, 2, d2, &v);
+}
+/* IOP id IPUT|BPUT|IGET fx|rc|sm|rs : post one nonblocking request for the whole variable / record 0 */
+static int iop(int id, const char *kind, const char *var) {
+    int varid, err, req, isrec = (var[0] == 'r'), i;
+    size_t n = (var[1] == 'x' || var[1] == 'c') ? 2048 : 8;
+    MPI_Offset start[2] = {0, 0}, count[2];
+    int *buf, *copy;
+    if ((err = ncmpi_inq_varid(id, var, &varid)) != NC_NOERR) return err;
+    if (isrec) { count[0] = 1; count[1] = (MPI_Offset)n; } else count[0] = (MPI_Offset)n;
+    buf = (int *)malloc(n * sizeof(int));
+    for (i = 0; i < (int)n; i++) buf[i] = 0x01020304 + i * 0x00010203 + counter;
+    counter++;
+    copy = (int *)malloc(n * sizeof(int)); memcpy(copy, buf, n * sizeof(int));
+    if (!strcmp(kind, "IPUT")) err = ncmpi_iput_vara_int(id, varid, start, count, buf, &req);
+    else if (!strcmp(kind, "BPUT")) err = ncmpi_bput_vara_int(id, varid, start, count, buf, &req);
+    else err = ncmpi_iget_vara_int(id, varid, start, count, buf, &req);
+    if (err == NC_NOERR) track(id, kind[0] != 'I' || kind[1] == 'P', buf, copy, n); else { free(buf); free(copy); }
+    return err;
+}
+
 /* one API call on ncid `id`; prints "err [value]" into out */
 static void do_call(int id, const char *kind, char *out, size_t outsz) {
     int err, n = -1;
@@ -78,10 +139,11 @@ static void do_call(int id, const char *kind, char *out, size_t outsz) {
     else if (!strcmp(kind, "ENDDEF")) { err = ncmpi_enddef(id); snprintf(out, outsz, "%d", err); }
     else if (!strcmp(kind, "REDEF")) { err = ncmpi_redef(id); snprintf(out, outsz, "%d", err); }
     else if (!strcmp(kind, "SYNC")) { err = ncmpi_sync(id); snprintf(out, outsz, "%d", err); }
-    else if (!strcmp(kind, "CLOSE")) { err = ncmpi_close(id); snprintf(out, outsz, "%d", err); }
-    else if (!strcmp(kind, "ABORT")) { err = ncmpi_abort(id); snprintf(out, outsz, "%d", err); }
-    else if (!strcmp(kind, "IPUT")) { static int val = 7; int req; err = ncmpi_iput_var_int(id, 0, &val, &req); snprintf(out, outsz, "%d", err); }
-    else if (!strcmp(kind, "ATTACH")) { err = ncmpi_buffer_attach(id, 64); snprintf(out, outsz, "%d", err); }
+    else if (!strcmp(kind, "CLOSE")) { err = ncmpi_close(id); snprintf(out, outsz, "%d", err); bufs_suffix(id, out, outsz); }
+    else if (!strcmp(kind, "ABORT")) { err = ncmpi_abort(id); snprintf(out, outsz, "%d", err); bufs_suffix(id, out, outsz); }
+    else if (!strcmp(kind, "SETUP")) { err = setup(id); snprintf(out, outsz, "%d", err); }
+    else if (!strcmp(kind, "IPUTFX")) { err = iop(id, "IPUT", "fx"); snprintf(out, outsz, "%d", err); }
+    else if (!strcmp(kind, "ATTACH")) { err = ncmpi_buffer_attach(id, 65536); snprintf(out, outsz, "%d", err); }
     else if (!strcmp(kind, "DETACH")) { err = ncmpi_buffer_detach(id); snprintf(out, outsz, "%d", err); }
     else if (!strcmp(kind, "INQPATH")) {
         char p[2048]; int len = 0; p[0] = 0;
@@ -92,7 +154,7 @@ static void do_call(int id, const char *kind, char *out, size_t outsz) {
     else if (!strcmp(kind, "INQFORMAT")) { err = ncmpi_inq_format(id, &n); snprintf(out, outsz, "%d %d", err, err ? -1 : n); }
     else if (!strcmp(kind, "INQATT")) { nc_type t; MPI_Offset l; err = ncmpi_inq_att(id, NC_GLOBAL, "a0", &t, &l); snprintf(out, outsz, "%d", err); }
     else if (!strcmp(kind, "GETVAR")) { int v = 0; err = ncmpi_get_var_int_all(id, 0, &v); snprintf(out, outsz, "%d", err); }
-    else if (!strcmp(kind, "WAITALL")) { err = ncmpi_wait_all(id, NC_REQ_ALL, NULL, NULL); snprintf(out, outsz, "%d", err); }
+    else if (!strcmp(kind, "WAITALL")) { err = ncmpi_wait_all(id, NC_REQ_ALL, NULL, NULL); snprintf(out, outsz, "%d", err); if (err == NC_NOERR) bufs_suffix(id, out, outsz); }
     else if (!strcmp(kind, "BEGININDEP")) { err = ncmpi_begin_indep_data(id); snprintf(out, outsz, "%d", err); }
     else snprintf(out, outsz, "bad-kind");
 }
@@ -194,6 +256,8 @@ int main(int argc, char **argv) {
                 printf("%s%d:%d", i ? " " : "", err, err ? -1 : id);
             }
             printf("\n");
+        } else if (!strcmp(tok[0], "IOP") && ntok == 4) {
+            printf("%d\n", iop(atoi(tok[1]), tok[2], tok[3]));
         } else if (!strcmp(tok[0], "SNAP")) {
             int num = 0, *ids = (int *)calloc(NC_MAX_NFILES + 1, sizeof(int));
             err = ncmpi_inq_files_opened(&num, ids);
